@@ -288,19 +288,29 @@ StateAndCovariance = namedtuple("StateAndCovariance", ["state", "covariance"])
 
 
 def assert_valid_covariance(
-    covariance: NDArray, *, name: str = "Covariance", negative_tol: float = -1e-15
+    covariance: NDArray,
+    *,
+    name: str = "Covariance",
+    negative_tol: float = -1e-15,
+    relative_tol: float = 1e-9,
 ):
     """
     Check that the covariance array is well formed:
 
     - symmetric (approximately)
     - positive semidefinite (approximately)
+
+    The rounding error of a computed covariance and of its eigenvalues is
+    proportional to the magnitude of the matrix, so the allowed negative
+    eigenvalue is negative_tol plus relative_tol times the largest eigenvalue
+    magnitude.
     """
     assert isinstance(covariance, np.ndarray)
     assert np.allclose(covariance, covariance.T)
 
     covariance_eigenvalues = np.linalg.eig(covariance)[0]
-    if np.any(covariance_eigenvalues < negative_tol):
+    magnitude = np.max(np.abs(covariance_eigenvalues), initial=0.0)
+    if np.any(covariance_eigenvalues < negative_tol - relative_tol * magnitude):
         # negative definite matrix is not a valid representation of uncertainty
         raise AssertionError(
             f"Negative {str(name)}:\n{covariance}\nEigen Values: {min(covariance_eigenvalues)}\n{covariance_eigenvalues}"
